@@ -1,6 +1,7 @@
 import MimicProofs.Params
 import Mimic.Extracted.Params
 import MimicProofs.ParsersCode
+import MimicProofs.ExecuteCode
 /-!
 # C06 — Prepared-statement parameters are bound as data, never as SQL
 -/
@@ -131,5 +132,34 @@ theorem read_param_value_is_code (E : Mimic.Py.Env (List Char)) (r : Mimic.Py.By
     (Mimic.Extracted.ParsersCode.read_param_value E r cs code u).map (fun x => (MimicProofs.ParsersCode.toPVal x.1, x.2))
       = readValue (E.decode cs) ⟨code, u, nm⟩ r :=
   MimicProofs.ParsersCode.read_param_value_eq E r cs code u nm
+
+/-- **`parse_com_stmt_execute` of `packets.py`, translated, is the model's `parseExecute`** — statement lookup, cursor
+    flags, iteration count, transmitted parameter count, `_read_params`, the literals of `_encode_param_as_sql` and the
+    single-pass `REGEX_PARAM.sub` — for every packet, capability set, statement and long-data table.  Hypotheses: the
+    meaning of `REGEX_PARAM` (`E.paramAt = isPh 0`; its source text is pinned by `source_facts`), the extracted
+    `ColumnType` table, `decode(b"") = ""`, a packet shorter than 2^63 bytes. -/
+theorem parse_com_stmt_execute_is_code (E : Mimic.Py.Env (List Char)) (caps cs : Nat) (valid : List Nat)
+    (hv : ∀ n, E.validType n = valid.contains n) (hE : E.decode cs [] = some E.empty) (hP : E.paramAt = isPh 0)
+    (get_stmt : Nat → Option (Mimic.Extracted.ParsersCode.PreparedStatement (List Char))) (data : Bytes) (hr : data.length < 2 ^ 63) :
+    (Mimic.Extracted.ExecuteCode.parse_com_stmt_execute E caps cs data get_stmt).map (fun x => (x.sql, x.query_attrs, x.use_cursor))
+      = match readUInt 4 data with
+        | none => none
+        | some (sid, after) =>
+          match get_stmt sid with
+          | none => none
+          | some st => (parseExecute valid (E.decode cs) E.fltText (Mimic.Py.hasBit caps 27) (MimicProofs.ExecuteCode.toStmt st) after).map
+                         (fun x => (x.1, x.2.1.map MimicProofs.ParsersCode.kvOut, x.2.2)) :=
+  MimicProofs.ExecuteCode.parse_com_stmt_execute_eq E caps cs valid hv hE hP get_stmt data hr
+
+/-- **code level: no string value can end its literal** — what the translated `_encode_param_as_sql` renders for any
+    string lexes back to exactly that string and stops at the closing quote -/
+theorem code_literal_lexes_back (E : Mimic.Py.Env (List Char)) (T : EscTable) (v rest : List Char) (hr : rest.head? ≠ some '\'') :
+    lexString T (Mimic.Extracted.ExecuteCode.encode_param_as_sql E (.str v) ++ rest) = some (v, rest) := by
+  rw [MimicProofs.ExecuteCode.encode_param_eq]
+  exact literal_lexes_back T v rest hr
+
+/-- non-vacuity at code level: the classic injection value through the translated encoder -/
+example : Mimic.Extracted.ExecuteCode.encode_param_as_sql MimicProofs.ParsersCode.asciiEnv (.str "a' OR '1'='1".toList)
+    = "'a'' OR ''1''=''1'".toList := by decide +kernel
 
 end MimicProps.C06
